@@ -225,12 +225,13 @@ QWidth(q) == IF q.k = "select" THEN Len(q.proj) ELSE Len(q.colls)
 Width(f, db) ==
   CASE f.k = "table" -> db[f.name].w
     [] f.k = "join" -> Width(f.l, db) + Width(f.r, db)
-    [] f.k = "derived" -> QWidth(f.q)
+    [] f.k \in {"derived", "cte"} -> QWidth(f.q)
+    [] f.k = "dual" -> 0
 
 \* FROM clause -> sequence of rows.  env is the OUTER environment (ON conditions may reference it).
 From(f, env, db) ==
   CASE f.k = "table" -> db[f.name].rows
-    [] f.k = "derived" -> Rows(f.q, <<>>, db)
+    [] f.k \in {"derived", "cte"} -> Rows(f.q, <<>>, db)     \* a CTE reference means its body
     [] f.k = "dual" -> << <<>> >>
     [] f.k = "join" ->
          (LET L == From(f.l, env, db)
